@@ -176,6 +176,9 @@ def check_zoned(c, provider, source, key, mk, w, is_utc_key):
         fb.add("freebusy", (val, timedelta(hours=2)))
     fb.add("freebusy", (val, timedelta(hours=1, minutes=30)))
     ev.add("rdate", [(val, timedelta(minutes=45))])
+    # the caller's own parameters come on top of the ones the value needs (TZID), they do not replace them
+    ev.add("recurrence-id", val, parameters={"RANGE": "THISANDFUTURE"})
+    ev.add("exdate", [val, mk(w + timedelta(days=1, hours=1))], parameters={"X-WHY": "moved"})
     cal = Calendar()
     cal.add_component(ev)
     cal.add_component(fb)
@@ -204,6 +207,10 @@ def check_zoned(c, provider, source, key, mk, w, is_utc_key):
         want_p = f"RDATE;TZID={key};VALUE=PERIOD:{fmt(w)}/PT45M"
         if want_p not in rl:
             c.fail("rdate-period:emitted-line", elem, want_p, rl)
+        for nm, wl in (("RECURRENCE-ID", f"RECURRENCE-ID;RANGE=THISANDFUTURE;TZID={key}:{fmt(w)}"),
+                       ("EXDATE", f"EXDATE;TZID={key};X-WHY=moved:{fmt(w)},{fmt(w2)}")):
+            if prop_line(data, nm) != [wl]:
+                c.fail("with-own-parameters:emitted-line", elem, wl, prop_line(data, nm))
         fl = prop_line(data, "FREEBUSY")
         want_f1 = f"FREEBUSY;TZID={key};VALUE=PERIOD:{fmt(w)}/{fmt(w + timedelta(hours=2))}"
         want_f2 = f"FREEBUSY;TZID={key};VALUE=PERIOD:{fmt(w)}/PT1H30M"
@@ -235,6 +242,15 @@ def check_zoned(c, provider, source, key, mk, w, is_utc_key):
             c.fail(f"{label}:offset-not-the-providers", elem, woff, got.utcoffset())
 
     chk("single", ev2["DTSTART"].dt, w)
+    rid, exd = ev2.get("RECURRENCE-ID"), ev2.get("EXDATE")
+    if rid is None or exd is None or isinstance(rid, list) or isinstance(exd, list) or len(exd.dts) != 2:
+        c.fail("with-own-parameters:shape", elem, "one RECURRENCE-ID, one EXDATE of two", (repr(rid), repr(exd)))
+    else:
+        chk("recurrence-id+RANGE", rid.dt, w)
+        chk("exdate+X-WHY[0]", exd.dts[0].dt, w)
+        chk("exdate+X-WHY[1]", exd.dts[1].dt, w2)
+        if rid.params.get("RANGE") != "THISANDFUTURE" or exd.params.get("X-WHY") != "moved":
+            c.fail("with-own-parameters:own-parameter-lost", elem, "RANGE / X-WHY kept", (dict(rid.params), dict(exd.params)))
     rds = ev2["RDATE"]
     rds = rds if isinstance(rds, list) else [rds]
     lists = [r for r in rds if r.params.get("VALUE") != "PERIOD"]
